@@ -592,5 +592,8 @@ def run(ctx):
     from . import c12
     c12.r9_subscripts_are_numeric(ctx, "C08.R12")
     r13_argument_validators_mean_what_they_say(ctx)
+    # RESUME label leaves every active call: what an outer call left on the VM stacks goes with it, or a
+    # later RETURN / EXIT SUB of the main module runs on the stacks of a call that is over (PopRet underflows)
+    c05.r11_resume_label_abandons_active_calls(ctx, "C08.R14")
     from . import panics
     panics.r_audit(ctx, "C08.R6", scope="backend")
